@@ -60,8 +60,8 @@ def gen_cases(rng, tier):
     for i in range(120 if tier == "quick" else 1500):
         w, h = rng.choice([(8, 8), (12, 6), (5, 9)])
         sw, sh = rng.choice([(1, 1), (4, 4), (8, 3)])
-        op = rng.choice([1.0, 0.5, 0.2, 0.75, 0.05, round(rng.random(), 3)])
-        cases.append(("pat_px", [2, sw, sh, rng.getrandbits(40), 1, 0, 0] + list(_c16_IDENT) + [rng.randrange(3), rng.randrange(3), f2b(op), rng.randrange(2), 0, w, h]))
+        op = rng.choice([1.0, 0.5, 0.2, 0.75, 0.05, 0.0, 0.0, round(rng.random(), 3)])   # 0: a transparent source still clears under Source
+        cases.append(("pat_px", [2, sw, sh, rng.getrandbits(40), 1, 0, 0] + list(_c16_IDENT) + [rng.randrange(3), rng.randrange(3), f2b(op), rng.randrange(2), rng.randrange(3), w, h]))
     # shader opacity: gradients drawn after Shader::apply_opacity sequences (none | 1.0 | 0.5, 1.0 | 0.5), judged by the
     # C15 reference with the stop alphas scaled by the product
     cases += [c for c in _c15.gen_cases(rng, tier) if c[0] == "grad_px" and c[1][8] >= 2][:400 if tier == "quick" else 5000]
